@@ -66,15 +66,16 @@ def chromaFn (cfg : Cfg) (ts : Nat) (v : Nat) : Nat :=
 
 theorem planeNew_ctx (inp : Array V3) (w h : Nat) (cfg : Cfg) (ts : Nat) (hw : 0 < w) (hh : 0 < h) (hin : inp.size = w * h)
     (wdiv : w % 2 ^ cfg.ssx = 0) (hdiv : h % 2 ^ cfg.ssy = 0)
-    (fits : (Plane.new (w >>> cfg.ssx) (h >>> cfg.ssy) cfg.ssx cfg.ssy 0 0 ts).data.size < USIZE_MAX) :
+    (fits : (Plane.new (w >>> cfg.ssx) (h >>> cfg.ssy) cfg.ssx cfg.ssy 0 0 ts).data.size < USIZE_MAX)
+    (fitsY : (Plane.new w h 0 0 0 0 ts).data.size ≤ USIZE_MAX) :
     EncCtx inp w h cfg.ssx cfg.ssy (Plane.new w h 0 0 0 0 ts) (Plane.new (w >>> cfg.ssx) (h >>> cfg.ssy) cfg.ssx cfg.ssy 0 0 ts)
       (Plane.new (w >>> cfg.ssx) (h >>> cfg.ssy) cfg.ssx cfg.ssy 0 0 ts) := by
   have cw := shr_pos w cfg.ssx hw wdiv
   have ch := shr_pos h cfg.ssy hh hdiv
   refine ⟨rfl, rfl, rfl, rfl, rfl, ?_, ?_, ?_, ?_, ?_, wdiv, hdiv, fits, hin⟩
-  · exact FrameP.planeNew_covers w h 0 0 0 0 ts _ hw hh rfl
-  · exact FrameP.planeNew_covers _ _ _ _ 0 0 ts _ cw ch rfl
-  · exact FrameP.planeNew_covers _ _ _ _ 0 0 ts _ cw ch rfl
+  · exact FrameP.planeNew_covers w h 0 0 0 0 ts _ hw hh rfl fitsY
+  · exact FrameP.planeNew_covers _ _ _ _ 0 0 ts _ cw ch rfl (Nat.le_of_lt fits)
+  · exact FrameP.planeNew_covers _ _ _ _ 0 0 ts _ cw ch rfl (Nat.le_of_lt fits)
   · show alignPow2 0 (6 + 1 - ts) + w ≤ alignPow2 (alignPow2 0 (6 + 1 - ts) + w + 0) (6 + 1 - ts)
     exact Nat.le_trans (by omega) (alignPow2_ge _ _)
   · show alignPow2 0 (6 + 1 - ts) + (w >>> cfg.ssx) ≤ alignPow2 (alignPow2 0 (6 + 1 - ts) + (w >>> cfg.ssx) + 0) (6 + 1 - ts)
@@ -95,14 +96,15 @@ pointwise image of the input (so it equals the 4:4:4 luma plane), and every chro
 input pixel inside its own block. -/
 theorem encode_spec (inp : Array V3) (w h : Nat) (cfg : Cfg) (ts : Nat) (hw : 0 < w) (hh : 0 < h) (hin : inp.size = w * h)
     (wdiv : w % 2 ^ cfg.ssx = 0) (hdiv : h % 2 ^ cfg.ssy = 0) (hss : cfg.ssx < 256 ∧ cfg.ssy < 256)
-    (fits : (Plane.new (w >>> cfg.ssx) (h >>> cfg.ssy) cfg.ssx cfg.ssy 0 0 ts).data.size < USIZE_MAX) :
+    (fits : (Plane.new (w >>> cfg.ssx) (h >>> cfg.ssy) cfg.ssx cfg.ssy 0 0 ts).data.size < USIZE_MAX)
+    (fitsY : (Plane.new w h 0 0 0 0 ts).data.size ≤ USIZE_MAX) :
     ∃ g, ypbprToYcbcr inp w h cfg ts = .ok g ∧ InvYuv g ∧ g.cfg = cfg.fixUnspecified w h ∧
       g.y.cfg = (Plane.new w h 0 0 0 0 ts).cfg ∧ g.u.cfg = (Plane.new (w >>> cfg.ssx) (h >>> cfg.ssy) cfg.ssx cfg.ssy 0 0 ts).cfg ∧
       g.v.cfg = g.u.cfg ∧
       (∀ x yy, x < w → yy < h → Plane.sample g.y x yy = lumaFn cfg ts (inp[yy * w + x]!).x) ∧
       (∀ cx cy, cx < w >>> cfg.ssx → cy < h >>> cfg.ssy → ∃ x' y', x' < w ∧ y' < h ∧ InBlock cfg.ssx cfg.ssy x' y' cx cy ∧
         Plane.sample g.u cx cy = chromaFn cfg ts (inp[y' * w + x']!).y ∧ Plane.sample g.v cx cy = chromaFn cfg ts (inp[y' * w + x']!).z) := by
-  have hc := planeNew_ctx inp w h cfg ts hw hh hin wdiv hdiv fits
+  have hc := planeNew_ctx inp w h cfg ts hw hh hin wdiv hdiv fits fitsY
   obtain ⟨st, es, is_⟩ := encRows_spec inp w h cfg.ssx cfg.ssy (lumaFn cfg ts) (chromaFn cfg ts) _ _ _ hc h _ (Nat.le_refl _)
     (by simpa using encInv_init inp w h cfg.ssx cfg.ssy (lumaFn cfg ts) (chromaFn cfg ts) _ _ _ hc)
   -- all pixels are processed at the end
